@@ -102,6 +102,26 @@ func (ex *Exec) nowValue(st *State) Value {
 	return StructVal{nsec, tt.Add(sec, C(64, uint64(unixToInternal))), loc}
 }
 
+// handoff (vhHandoff mode): after releasing a mutex the goroutine yields the processor to the next other
+// goroutine that is not finished (round robin, the harness's main goroutine excepted). This is one of the
+// schedules the Go runtime may produce; it lets lock/peek/unlock retry loops make progress under the serial
+// scheduler. The switch happens after the current instruction completed (see step).
+func (ex *Exec) handoff(st *State) {
+	if !st.handoff {
+		return
+	}
+	n := len(st.coros)
+	for k := 1; k < n; k++ {
+		i := (st.cur + k) % n
+		c := st.coros[i]
+		if i == 0 || c.status == CoDone || c.manual {
+			continue
+		}
+		st.yieldTo = i + 1
+		return
+	}
+}
+
 func init() {
 	// ----- sync.Mutex / RWMutex -----
 	lock := func(kind string) intrinsic {
@@ -135,6 +155,7 @@ func init() {
 				}
 				delete(st.side, "mu:"+k)
 				delete(st.lockset, k)
+				ex.handoff(st)
 			case "RLock":
 				if w != 0 {
 					return nil, ctlBlk
@@ -153,6 +174,7 @@ func init() {
 				} else {
 					st.side["rmu:"+k] = r - 1
 				}
+				ex.handoff(st)
 			}
 			return nil, ctlRet
 		}
